@@ -16,7 +16,7 @@ def m_worker(args):
 
 def token_worker(args):
     """one string length; returns dict(L, paths, ok, err, panics=[{stage,msg,hex}], stmts, queries, solver_s, wall)"""
-    src, L, mir = args
+    src, L, mir, part, parts = args
     t0 = time.time()
     import z3
     import mirx
@@ -25,7 +25,7 @@ def token_worker(args):
     out = dict(L=L, panics=[], error=None)
     try:
         M = load_lib(src, 'dev', mir)
-        bs, recs = tokens.explore(M, L)
+        bs, recs = tokens.explore(M, L, byte_cons=tokens.part_cons(part, parts))
         out.update(paths=len(recs), ok=sum(1 for r in recs if r['kind'] == 'Ok'), err=sum(1 for r in recs if r['kind'] == 'Err'))
         samples = []
         # range-level consumers on the single-token range: HandRange::from_str of the same text is covered by range_worker;
@@ -53,6 +53,7 @@ def token_worker(args):
 
 
 def main():
+    import tokens
     a, seed = tier_and_seed(sys.argv[1:])
     t0 = time.time()
     PID = 'C09'
@@ -82,8 +83,8 @@ def main():
         if not a.only or 'tokens' in a.only:
             lens = list(range(0, Lmax + 1))
             mir = mir_dump(src, 'dev')
-            with Pool(min(NCPU, len(lens))) as pool:
-                results = pool.map(token_worker, [(src, L, mir) for L in reversed(lens)], chunksize=1)
+            with Pool(NCPU) as pool:
+                results = pool.map(token_worker, [(src, L, mir, k, n) for L, k, n in tokens.split_jobs(lens)], chunksize=1)
             results.sort(key=lambda d: d['L'])
             tot_paths = sum(d.get('paths', 0) for d in results)
             errs = [d for d in results if d['error']]
